@@ -229,7 +229,7 @@ Qed.
 (* ------------------------------------------------------------------ the theorem for filters *)
 Theorem conds_of_atom_sound v (ok : val_ok v) a :
   atom_wf a ->
-  eval_set v (conds_of_atom a) = atom_holds v a 0%N /\ cset_wf (conds_of_atom a) /\ conds_of_atom a <> [].
+  eval_set v (conds_of_atom a) = atom_holds v a (v_start v) /\ cset_wf (conds_of_atom a) /\ conds_of_atom a <> [].
 Proof.
   intros Hw. destruct a as [sub names|sub items|cli srv sub items|tys sub ranges|key sub ranges|sub els];
     cbn [conds_of_atom atom_holds atom_truth] in *.
